@@ -61,6 +61,7 @@ type S3 struct {
 	Prog     *ssa.Program
 	Defines  map[string]bool // template defines seen as markers
 	Debug    bool
+	cleanups []func()
 }
 
 type S3Options struct {
@@ -71,6 +72,11 @@ type S3Options struct {
 }
 
 func (s *S3) Close() {
+	if s != nil {
+		for _, f := range s.cleanups {
+			f()
+		}
+	}
 	if s != nil && s.Scratch != "" && os.Getenv("VERIF_KEEP_SCRATCH") == "" {
 		os.RemoveAll(s.Scratch)
 	}
